@@ -13,6 +13,8 @@ From XcpProofs Require Import WalkerProofs.
 From XcpModel Require Import Extracted.
 From XcpProofs Require Import ExtractedOk.
 From Coq Require Import Permutation.
+From XcpProofs Require Import PinnedSource.
+From XcpPins Require Import Pin_parblock_queue_file_range Pin_operations_drop.
 Local Open Scope nat_scope.
 
 (* parblock: for all W, Q, all operation lists, all schedules: at the end every
@@ -117,6 +119,13 @@ Example C06_nonvacuous :
   phase_of 0 (b_ev s) = PFinal [0; 1].
 Proof. vm_compute. repeat split. Qed.
 
+(* ---- the glue functions this property's hand-written model mirrors are, token for token, the ones it was
+   validated against (an edit re-opens the obligation; harness/repin.py re-pins after re-validation) ---- *)
+Theorem C06_src_pin_parblock_queue_file_range : pin_unchanged name_parblock_queue_file_range.
+Proof. exact pin_parblock_queue_file_range. Qed.
+Theorem C06_src_pin_operations_drop : pin_unchanged name_operations_drop.
+Proof. exact pin_operations_drop. Qed.
+
 Print Assumptions C06_parblock_any_schedule.
 Print Assumptions C06_parfile_any_schedule.
 Print Assumptions C06_drivers_agree.
@@ -126,3 +135,5 @@ Print Assumptions C06_blocks_exactly_once.
 Print Assumptions C06_trace_judgement_sound.
 Print Assumptions C06_directory_before_children.
 Print Assumptions C06_src_block_fallback_is_positional.
+Print Assumptions C06_src_pin_parblock_queue_file_range.
+Print Assumptions C06_src_pin_operations_drop.
